@@ -39,6 +39,7 @@ func runC04(c *Ctx) {
 	// shared rule: a skipped file gets its pointer text back (rules_round4.go)
 	smudgeToFileRule(c, "R9")
 	pathspecSeparatorRule(c, "R10")
+	delayedPointersSurviveRounds(c, "R8")
 	run := p.Fn("commands", "(*singleCheckout).Run")
 	if run == nil {
 		c.Missing("R1", "(*singleCheckout).Run", "not found")
